@@ -226,6 +226,13 @@ impl DescriptorManager {
     }
 }
 
+#[cfg(expression_engine_verif)]
+impl DescriptorManager {
+    pub fn verif_lock_free(&self) -> bool {
+        self.store.try_lock().is_ok()
+    }
+}
+
 fn default_unary_descriptor(op: String, rhs: String) -> String {
     op + &rhs
 }
